@@ -24,7 +24,9 @@ BUDGET_S = {"quick": 90, "thorough": 1200}
 def run_collapse(case):
     from pymbolic import var
     from dagrt.expression import collapse_constants
+    T.set_kw_order(case)          # keyword arguments written in name order, or reversed
     expr = T.to_pymbolic(case["expr"])
+    T.set_kw_order(False)
     free = [var(n) for n in case["free"]]
     counter = itertools.count()
     created = []
@@ -76,7 +78,10 @@ def check_case(case):
             for _ in range(len(pending) + 1):
                 rest = []
                 for n, e in pending:
-                    o = outcome(e, env2, salt)
+                    try:
+                        o = outcome(e, env2, salt)
+                    except T.UndefinedRead:
+                        o = ("later",)          # reads a hoisted variable that is not evaluated yet
                     if o[0] == "v":
                         env2[n] = o[1]
                     else:
@@ -144,7 +149,7 @@ def shard(ctx, n):
             free = draw(st.lists(st.sampled_from(names), unique=True, min_size=lo, max_size=min(4, len(names))))
         else:
             free = []
-        return {"expr": e, "free": sorted(free)}
+        return {"expr": e, "free": sorted(free), "kw_reverse": draw(st.booleans())}
 
     def body(case):
         try:
